@@ -23,7 +23,10 @@ theorem z0_wellShaped (sem : Sem) (lamb : Rat) (n : Nat) : WellShaped n (z0 sem 
   cases sem <;> exact scaledIdentity_wellShaped _ _
 
 theorem Agent.clone_eq (a : Agent) : a.clone = a := by cases a; rfl
-theorem Agent.reload_eq (a : Agent) : a.reload = a := by cases a; rfl
+theorem Agent.loadFrom_eq (target saved : Agent) (h : target.sem = saved.sem) :
+    target.loadFrom saved = saved := by
+  cases target; cases saved; simp only at h; subst h; rfl
+theorem Agent.reload_eq (a : Agent) : a.reload = a := Agent.loadFrom_eq _ a rfl
 
 theorem Agent.sized_initParams (a : Agent) : a.initParams.Sized :=
   ⟨rfl, sigma0_wellShaped _ _ _⟩
